@@ -995,6 +995,54 @@ fn reposition_payouts(w: &mut World, sc: &Scenario, rec: &mut Recorder) {
     }
 }
 
+/// Long swaps (C20, C10): liquidity over six consecutive tick arrays, then swaps that end in the THIRD array of their window, in both
+/// directions, while three more arrays exist behind the start (the SDK is then quoted over all six).
+fn long_swaps(w: &mut World, sc: &Scenario, rec: &mut Recorder) {
+    let pool = sc.pool.clone();
+    let s = w.pools[&pool].spacing as i32;
+    let span = s * 88;
+    let t = w.pool_tick(&pool);
+    let s0 = t.div_euclid(span) * span;
+    if sc.full_range_only || s0 - 3 * span <= MIN_TICK || s0 + 4 * span >= MAX_TICK {
+        return;
+    }
+    for k in -3..=3 {
+        let st = s0 + k * span;
+        if !w.ta_exists(&pool, st) {
+            let dynamic = w.pools[&pool].dynamic;
+            let ix = w.ix_init_tick_array(&pool, st, dynamic);
+            rec.exec(w, &ix, true, json!("setup"));
+        }
+    }
+    let (lo, up) = (s0 - 3 * span + s, s0 + 4 * span - s);
+    let (ix, info) = w.ix_open_position(&pool, "U1", lo, up, PosKind::Plain);
+    if !rec.exec(w, &ix, true, json!("long")).ok() {
+        return;
+    }
+    let name = info.name.clone();
+    w.positions.insert(name.clone(), info);
+    let v2 = sc.v2_only;
+    let liq = 1u128 << w.rng.gen_range(24..34);
+    let ix = w.ix_increase(&name, "U1", liq, u64::MAX, u64::MAX, v2);
+    rec.exec(w, &ix, false, json!("long"));
+    let big = 1u64 << 58;
+    for round in 0..3 {
+        let cur = w.pool_tick(&pool).div_euclid(span) * span;
+        // b -> a into the third array of the window (two arrays above the current one), a -> b two arrays below
+        let up_t = cur + 2 * span + w.rng.gen_range(1..80) * s + 1;
+        if up_t < up - s {
+            let ix = w.ix_swap(&pool, "U2", big, 0, price_of(up_t), true, false, v2);
+            rec.exec(w, &ix, false, json!("long"));
+        }
+        let cur = w.pool_tick(&pool).div_euclid(span) * span;
+        let dn_t = cur - 2 * span + w.rng.gen_range(1..80) * s + 1;
+        if dn_t > lo + s && round < 2 {
+            let ix = w.ix_swap(&pool, "U3", big, 0, price_of(dn_t), true, true, v2);
+            rec.exec(w, &ix, false, json!("long"));
+        }
+    }
+}
+
 /// Adaptive fee (C14): a deterministic walk through the reference rules.  Liquidity over a wide range; a
 /// swap that moves several tick groups (accumulator > 0); a pause inside [filter, decay) and a small swap
 /// (the reference becomes the reduced accumulator); a pause beyond the decay period (or inside the window
@@ -1111,6 +1159,9 @@ pub fn run(cfg: &HistCfg, rec: &mut Recorder) {
         }
         if h % 4 == 2 {
             reposition_payouts(&mut w, &sc, rec);
+        }
+        if h % 4 == 3 {
+            long_swaps(&mut w, &sc, rec);
         }
         for s in 0..cfg.steps {
             random_step(&mut w, &sc, rec);
